@@ -120,6 +120,17 @@ class GenericContextRegistry(
         super()._build_cache(loaded_files)
         self._caches[()] = self._cache
 
+    def _rebuild_cache_after_redefinition(self) -> None:
+        if len(self._units.maps) > 1:
+            # The definition went into the overlay of the active contexts,
+            # which has a cache of its own.
+            self._cache_outdated = False
+            return
+        super()._rebuild_cache_after_redefinition()
+        # The overlays of context combinations were derived from the old cache.
+        self._caches = {(): self._cache}
+        self._context_units = {}
+
     def _switch_context_cache_and_units(self) -> None:
         """If any of the active contexts redefine units, create variant self._cache
         and self._units specific to the combination of active contexts.
@@ -197,6 +208,7 @@ class GenericContextRegistry(
 
         # Write into the context-specific self._units.maps[0] and self._cache.root_units
         self.define(definition)
+        self._cache_outdated = False
 
     def enable_contexts(
         self, *names_or_contexts: str | objects.Context, **kwargs: Any
